@@ -14,7 +14,7 @@ from harness.common import dec_res, enc_val, ensure_impl_on_path, known_predicat
 
 GEN_MODULES = ['excelutil', 'lookup']
 EXTRA_TARGETS = ('Proofs/C16.vo', 'Proofs/C16Order.vo', 'Proofs/C16Sorted.vo', 'Proofs/C16Desc.vo',
-                 'Proofs/C16Lookup.vo', 'Proofs/C16Wild.vo', 'Refuted/C16_blank_cell.vo',
+                 'Proofs/C16Lookup.vo', 'Proofs/C16Wild.vo', 'Proofs/C16Wrap.vo', 'Refuted/C16_blank_cell.vo',
                  'Refuted/C16_lookup_short.vo',
                  'Refuted/C16_wildcard_tilde.vo')
 ASSUMPTIONS = [
